@@ -199,6 +199,16 @@ def digits_text(rng, n, form):
             d = "0" * rng.range(1, 3) + d
         return form + underscores(rng, d, 0 if rng.chance(1, 6) else 1), 0, []
     b = form
+    if b >= 12 and rng.chance(1, 5):
+        # digits of radix b that merely LOOK like a radix prefix: `0b101 base 16` is 0xb101, not 5 (seeded change C20_D:
+        # from_str_with_radix_default instead of from_str_radix would re-read them in radix 2/8/16).  The digits after the
+        # letter are valid for that pseudo prefix, so rustc and proc_macro2 lex the text as one literal token
+        letters = [("b", "01")] + ([("o", "01234567")] if b >= 25 else []) + ([("x", "0123456789abcdef")] if b >= 34 else [])
+        letter, alphabet = rng.choice(letters)
+        body = "".join(rng.choice(alphabet) for _ in range(rng.range(1, rng.choice([3, 8, 20, 70]))))
+        if rng.chance(1, 4):
+            body = underscores(rng, body)
+        return "0" + letter + body, b, [piece("base"), piece(str(b))]
     d = to_base(n, b)
     if rng.chance(1, 4):
         d = d.upper()
@@ -481,8 +491,31 @@ def gen_one(rng, tier):
     return gen_bad_float(rng)
 
 
-def gen_cases(rng, tier, n):
+# digit texts that start like a radix prefix, with a `base N` suffix: values of radix N where `b`/`o`/`x` is a digit of N,
+# compile errors where it is not (or where the pseudo prefix would be the only way to read them)
+PREFIX_BASE = [("0b101", 16), ("0o17", 32), ("0x1f", 36), ("0b11", 12), ("0B11", 16), ("0o7", 25), ("0x0", 34), ("0b1_0", 36),
+               ("0b100000000000000000000000000000001", 16), ("0x123456789abcdef0123456789", 36),
+               ("0x10", 10), ("0b11", 2), ("0o17", 8), ("0b101", 11), ("0o17", 24), ("0x1f", 33), ("0x1f", 16), ("0b", 16), ("0x", 36)]
+
+
+def gen_prefix_base(rng):
+    """every entry of PREFIX_BASE in all of ubig!/ibig!/static_ubig!/static_ibig! (and two dashu:: paths), then as rbig! parts"""
     out = []
+    for text, b in PREFIX_BASE:
+        for flags in ("u", "us", "i", "is", "ue", "ise"):
+            neg = "i" in flags and rng.chance(1, 2)
+            sp = [piece("-")] if neg else []
+            out.append(case("int", flags, b, ("-" if neg else "") + text, sp + [piece(text, bool(sp) and rng.chance(1, 2)), piece("base"), piece(str(b))]))
+    for text, b in PREFIX_BASE[:8] + PREFIX_BASE[10:14]:
+        for flags in ("-", "s", "x", "sx"):
+            tilde = [piece("~")] if "x" in flags else []
+            out.append(case("rat", flags, b, text + "/3", tilde + [piece(text), piece("/"), piece("3"), piece("base"), piece(str(b))]))
+            out.append(case("rat", flags, b, "5/" + text, tilde + [piece("5"), piece("/"), piece(text), piece("base"), piece(str(b))]))
+    return out
+
+
+def gen_cases(rng, tier, n):
+    out = gen_prefix_base(rng)
     # every hand-written bad token sequence once, in a fixed order, then the random mixture
     for i in range(len(BAD_INT)):
         out.append(gen_bad_int(FixedChoice(rng, i)))
